@@ -73,6 +73,13 @@ Definition sc_unpack (inbuf : list Z) (insize position : Z) (outbuf : list Z) (o
   if pack_refuses position size insize then (ERR_NO_SPACE, Some outbuf, position)
   else let '(d, s, n) := unpack_copy position size in (SUCCESS, memcpy_at outbuf d inbuf s n, pack_advance position size).
 
+(* code, new position and whether an accepted copy leaves a buffer of `limit` bytes, without the buffers (for buffers
+   too large to be lists: positions near INT_MAX); MpiProofs.pack_codes_spec ties them to sc_pack / sc_unpack *)
+Definition sc_pack_codes (count t limit position : Z) : Z * Z * bool :=
+  let size := pack_bytes count t in
+  if pack_refuses position size limit then (ERR_NO_SPACE, position, false)
+  else (SUCCESS, pack_advance position size, negb ((0 <=? position) && (position + u64 size <=? limit))).
+
 (* ---- communicators and groups (sc_mpi.c:61-157) ---- *)
 Definition sc_comm_size (comm : Z) : Z * option Z := (SUCCESS, Some 1).
 Definition sc_comm_rank (comm : Z) : Z * option Z := (SUCCESS, Some 0).
